@@ -208,6 +208,10 @@ impl CollectionInfoResponse {
         finders_fee: Option<Uint128>,
         res: &mut Response,
     ) -> StdResult<Uint128> {
+        // fees alone may not exceed the payment, whether or not a royalty is due
+        if payment < protocol_fee + finders_fee.unwrap_or(Uint128::zero()) {
+            return Err(StdError::generic_err("Fees exceed payment"));
+        }
         if let Some(royalty_info) = self.royalty_info.as_ref() {
             if royalty_info.share.is_zero() {
                 return Ok(Uint128::zero());
